@@ -8,7 +8,9 @@ Require Export V.C35.Model.
 Open Scope N_scope.
 
 Inductive linkrec :=
-| L (scope : ida)                    (* IDA of the map the link was written in: root, (kind, name)*, object path *)
+| L (scope : ida)                    (* IDA of the map the link was written in: root, (kind, name)*, object path
+                                        (inside an imported file: relative to that file's root) *)
+    (imp : option ida)               (* Some: the link is in an imported file; IDA of the importing field *)
     (inb : list (str * str))         (* the board holding this object (differs from the defining board for
                                         objects inherited by scenarios/steps) *)
     (link : ida)                     (* d2parser.ParseKey of the written link *)
@@ -22,8 +24,11 @@ Definition strs_eqb := list_eqb str_eqb.
 
 Definition check_link (ext : str) (out : path) (tree : board) (m : list (str * path)) (r : linkrec) : list N :=
   match r with
-  | L scope inb link stored stored_str final =>
-      let model := stored_link tree (graph_ida inb) scope link in
+  | L scope imp inb link stored stored_str final =>
+      let model := match imp with
+                   | None => stored_link tree (graph_ida inb) scope link
+                   | Some i => stored_link_imported tree (graph_ida inb) i scope link
+                   end in
       let cur := key_pairs s_root inb in
       flag (opt_eqb strs_eqb (option_map (map s_val) model) stored) 1
       ++ match stored with
